@@ -86,7 +86,7 @@ def make_row(rid, job, out):
     for f in rep["files"]:
         files.append({"f": f["f"], "el": f["el"], "exists": bool(f["exists"]), "wellformed": bool(f["wellformed"]),
                       "tests": f["tests"], "failures": f["failures"], "errors": f["errors"], "skipped": f["skipped"],
-                      "cases": [{"el": c["el"], "status": c["status"],
+                      "cases": [{"el": c["el"], "name": c["name"], "status": c["status"],
                                  "entries": [{"kind": e["kind"], "steps": e["steps"], "hook": bool(e["hook"])} for e in c["entries"]]}
                                 for c in f["cases"]]})
     # final statuses: of the scenario objects that ran (announced to the formatters) where there is one, else of the walk
@@ -99,6 +99,8 @@ def make_row(rid, job, out):
                 status[k], steps[k], hookf[k] = st, ran["steps"][k], ran["hook_failed"][k]
     end = dict(end, status=status, step_status=steps, hook_failed=hookf)
     return {"id": rid, "prog": slim_prog(job["flat"]),
+            # prog["dupnames"]: scenarios of one feature share their name -- test cases are matched as a multiset
+            "dup": bool(job["prog"].get("dupnames")), "names": [n[:60] for n in rep["names"]],
             "cfg": {"show_skipped": bool(job["cfg"]["show_skipped"]), "dry": bool(job["cfg"]["dry"]),
                     "retry": bool(job["cfg"].get("retry", False)), "fault_kbd": job.get("fault_kind") == "kbd"},
             "sw": {"show_skipped_always": bool(job["sw"].get("show_skipped_always", False))},
@@ -247,9 +249,6 @@ def plan_jobs(chk, quota, rnd):
                 jobs.append({"key": [tid + 1, ci + 1, fi + 1], "prog": p, "flat": flat, "cfg": c, "fault": f,
                              "fault_kind": "assert" if (tid + ci + fi) % 3 == 0 else "exc"})
     total = len(jobs)
-    # prog["dupnames"]: every scenario is called "S": a <testcase> cannot be told apart by its name (nobody reading the report
-    # can), so these programs are left to the other checks
-    jobs = [j for j in jobs if not j["prog"].get("dupnames")]
     if total > quota * 8:
         keep = [j for j in jobs if job_class(j)[0]]
         jobs = keep + rnd.sample(jobs, quota * 8)
@@ -266,6 +265,10 @@ def plan_jobs(chk, quota, rnd):
             nmulti[0] += 1
             if nmulti[0] % 2 == 0:                                 # every second program with several features: f.<i>.feature
                 prog = dict(prog, dotfiles=True)
+        if n % 5 == 1 and _nscen(j) >= 2 and j["cfg"].get("names") is None:
+            # every fifth case: all scenarios of the program are called "S" (prog dupnames of the shared renderer; not with
+            # --name selection, which goes by name): test cases with equal (classname, name) in one document
+            prog = dict(prog, dupnames=True)
         out.append(mk_job(["run"] + j["key"], prog, flat, j["cfg"], j["fault"], j["fault_kind"], all_writers=(n % 8 == 7)))
     return out, total
 
@@ -493,6 +496,8 @@ def signature(v, row, job=None):
         bad = [c for c in hook[1] if c in ("c0", "c0ws", "delc1", "esc", "fffe")] or hook[1]
         parts.append("src=%s_message" % (hook[0] or "none"))
         parts.append("class=%s" % "+".join(sorted(set(bad))))
+    elif row.get("dup"):
+        parts.append("dupnames")
     elif clause.split("/")[0] in ("C16.status", "C16.problem_entry") and 0 < el <= len(row["end"]["status"]):
         parts.append("status=%s" % row["end"]["status"][el - 1])
     parts.append("dry=%d" % int(row["cfg"]["dry"]))
@@ -687,6 +692,7 @@ def run(chk):
     chk.extra["run_rows_with_raising_hook"] = sum(1 for x in rows if x["hooks_raised"])
     chk.extra["run_rows_dry"] = sum(1 for x in rows if x["cfg"]["dry"])
     chk.extra["run_rows_show_skipped_off"] = sum(1 for x in rows if not x["cfg"]["show_skipped"])
+    chk.extra["run_rows_same_scenario_names"] = sum(1 for x in rows if x["dup"])
     chk.extra["run_rows_all_report_writers"] = sum(1 for j, _o in metas.values() if j["all_writers"])
     chk.extra["run_rows_with_verdict"] = {k: sum(1 for rid in verdicts if metas[rid][0]["kind"] == k) for k in ("run", "switch", "hook", "design")}
     counts = {}
@@ -697,7 +703,8 @@ def run(chk):
     chk.extra["run_testcases_by_status_and_entries"] = counts
     observed = {"hidden_skipped_with_untested_testcase": 0, "hidden_skipped_dry_run_with_testcases": 0, "hidden_skipped_scenario_left_out": 0,
                 "shown_skipped_testcase": 0, "shown_untested_testcase": 0, "failed_testcase": 0, "error_testcase": 0,
-                "hook_error_testcase": 0, "outline_row_testcase": 0, "several_documents": 0, "reporter_raised": 0}
+                "hook_error_testcase": 0, "outline_row_testcase": 0, "several_documents": 0, "reporter_raised": 0,
+                "same_name_testcases_in_one_document": 0}
     for x in rows:
         show = x["cfg"]["show_skipped"] or x["sw"]["show_skipped_always"]
         fs = [f for f in x["files"] if f["exists"] and f["wellformed"]]
@@ -714,6 +721,8 @@ def run(chk):
         observed["hook_error_testcase"] += int("hook_error" in sts)
         observed["outline_row_testcase"] += int(any(x["prog"][x["prog"][el - 1]["parent"] - 1]["kind"] == "outline" for el in listed if el))
         observed["several_documents"] += int(len(fs) > 1)
+        nms = [n for n in x["names"] if n]                      # (measured on the input, not on the documents)
+        observed["same_name_testcases_in_one_document"] += int(x["dup"] and bool(fs) and len(set(nms)) < len(nms))
         observed["reporter_raised"] += int(bool(x["end"]["escaped"]) and x["tail"]["name"] == "eof")
     chk.extra["run_rows_by_observed_class"] = observed
     empty = [k for k, n in observed.items() if not n and k != "reporter_raised"]
@@ -745,7 +754,8 @@ def run(chk):
         "parsed by xml.dom.minidom; distinct = distinct (program, cfg, switches, final statuses, raised hooks) among rows with test cases")
     chk.assumptions += [
         "C16 run: a <testcase> stands for the scenario of the parsed model (outline rows included) that carries its name, identified "
-        "by file and line; programs in which every scenario has the same name (prog dupnames) are not run by this check",
+        "by file and line; in programs whose scenarios share their name (prog dupnames) the test cases of a feature are matched as "
+        "a multiset of (name, status class) against the listed scenarios, entry kinds are judged against the test case's own status",
         "C16 run: an entry names a step when its message or text contains that step's text (fbg k / rbg k / own k), a hook when it "
         "contains HOOK-ERROR",
         "C16 run: a wholly skipped feature with show_skipped off may have no document; features for which the reporter was never "
